@@ -474,8 +474,22 @@ fn arg(args: &[String], name: &str) -> Option<String> {
     args.iter().position(|a| a == name).and_then(|i| args.get(i + 1).cloned())
 }
 
+struct NullLogger;
+impl log::Log for NullLogger {
+    fn enabled(&self, _: &log::Metadata) -> bool {
+        true
+    }
+    fn log(&self, r: &log::Record) {
+        // format the record (arguments with side effects or panicking Display impls are part of the code under test)
+        let _ = std::hint::black_box(format!("{}", r.args()).len());
+    }
+    fn flush(&self) {}
+}
+static NULL_LOGGER: NullLogger = NullLogger;
+
 fn main() {
     quiet_panics();
+    let _ = log::set_logger(&NULL_LOGGER);
     let args: Vec<String> = std::env::args().collect();
     let out = arg(&args, "--out").expect("--out");
     let log = EvLog::to_file(&out).expect("open out");
@@ -517,6 +531,9 @@ fn main() {
         let mut run = Run::new(log.clone(), seed.wrapping_add(k as u64));
         // every fourth schedule runs with the clock jumping ahead between its steps: by seconds, by minutes,
         // by hours (seconds first so that short and long limits are both crossed with an operation in between)
+        // The router logs what it does to failing peers.  Whether anybody listens must not matter: schedules
+        // alternate between no logging at all (macro arguments are then not even evaluated) and everything on.
+        log::set_max_level(if (k / 2) % 2 == 0 { log::LevelFilter::Off } else { log::LevelFilter::Trace });
         run.tick = match k % 8 {
             1 => Some(&[7, 7, 61, 7, 3601]),
             5 => Some(&[1, 2, 4, 8, 16, 32, 64, 128, 86_400]),
